@@ -10,6 +10,9 @@
 mod c03;
 mod c14;
 mod c13;
+mod actions;
+mod c09;
+mod c10;
 mod c15;
 mod c16;
 mod c17;
@@ -50,6 +53,8 @@ fn module(prop: &str) -> PropModule {
         "C13" => c13::module(),
         "C05" => c05::module(),
         "C18" => c18::module(),
+        "C09" => c09::module(),
+        "C10" => c10::module(),
         "C01" => PropModule { coq_module: "Check_Norm", runner: "Check_Norm.run_C01", generate: |r, t| libgen::generate_mixed(r, t, 320), execute: lib_stage::execute, label: libgen::label },
         "C02" => PropModule { coq_module: "Check_Norm", runner: "Check_Norm.run_C02", generate: |r, t| libgen::generate_mixed(r, t, 320), execute: lib_stage::execute, label: libgen::label },
         "C06" => PropModule { coq_module: "Check_Norm", runner: "Check_Norm.run_C06", generate: |r, t| libgen::generate_mixed(r, t, 320), execute: lib_stage::execute, label: libgen::label },
